@@ -74,8 +74,11 @@ class ExactAlgorithmCplex(ExactAlgorithmBase, PairwiseBasedAlgorithm):
                                                  "returns a single ranking, hence parameter return_at_most_one_ranking"
                                                  " must be set to false (default value)")
 
+        # the optimal consensus does not depend on the scale of the penalties, but the tolerances of the solver and
+        # the precision threshold are absolute: the model is built with the penalties divided by B[1] (> 0 for any
+        # valid scoring scheme), so that a disagreement costs 1 whatever the magnitude of the scoring scheme
         consensus_rankings: List[Ranking] = self._compute_consensus_rankings_with_optim(
-            dataset, scoring_scheme, self._optimize, return_at_most_one_ranking)
+            dataset, scoring_scheme * (1. / scoring_scheme.b_vector[1]), self._optimize, return_at_most_one_ranking)
         return Consensus(consensus_rankings=consensus_rankings,
                          dataset=dataset,
                          scoring_scheme=scoring_scheme,
